@@ -7,7 +7,11 @@
 (* top       tdescr [len, size], treadme (n + listed subarray lengths)     *)
 (* handle    mode, vlen, ilen (cached first-axis lengths of the two        *)
 (*           sub-array handles), mmI (length of the cached index memmap    *)
-(*           while open_arrays() is active, else NoMap)                    *)
+(*           while open_arrays() is active, else NoMap), uctx (the user    *)
+(*           holds an open_arrays() context or a suspended iter_arrays      *)
+(*           generator - "no", or the access mode they were opened with -  *)
+(*           generator: the maps stay open, with the lengths they were     *)
+(*           opened for, across public calls)                              *)
 (* pc        program point; ghost ref \in Seq(Seq(RowIds)); out            *)
 (*                                                                         *)
 (* Code map: RA_Call/RA_* = RaggedArray.append / iterappend / _append;     *)
@@ -21,17 +25,18 @@ CONSTANTS RowIds, MaxSub, MaxItemLen, MaxItems, TruncArgs, Ops, Faults, Crashes,
           InitRefs, InitModes, ListFirst, IdxMax
 
 VARIABLES vrows, vtail, vdescr, vreadme, irows, itail, idescr, ireadme,
-          tdescr, treadme, mode, vlen, ilen, mmI, pc, ref, out
+          tdescr, treadme, mode, vlen, ilen, mmI, uctx, pc, ref, out
 
 vdisk == <<vrows, vtail, vdescr, vreadme>>
 idisk == <<irows, itail, idescr, ireadme>>
 tdisk == <<tdescr, treadme>>
 disk == <<vrows, vtail, vdescr, vreadme, irows, itail, idescr, ireadme, tdescr, treadme>>
 vars == <<vrows, vtail, vdescr, vreadme, irows, itail, idescr, ireadme, tdescr, treadme,
-          mode, vlen, ilen, mmI, pc, ref, out>>
+          mode, vlen, ilen, mmI, uctx, pc, ref, out>>
 
 Idle == [op |-> "idle"]
 NoMap == -1
+InCtx == uctx # "no"
 DOk(n) == [k |-> "ok", len |-> n]
 DTorn == [k |-> "torn"]
 TOk(n, sz) == [k |-> "ok", len |-> n, size |-> sz]
@@ -77,9 +82,11 @@ Listed(vis, n) ==
       head == [k \in 1..(IF e <= Len(vis) THEN e ELSE Len(vis)) |-> <<k - 1, vis[k][2] - vis[k][1]>>]
   IN IF n > ListFirst /\ Len(vis) > 0
      THEN head \o <<<<n - 1, vis[Len(vis)][2] - vis[Len(vis)][1]>>>> ELSE head
-TStamp == [k |-> "ok", n |-> ilen, listed |-> Listed(Visible, ilen)]
+(* inctx (ghost): the text was written while the user held the maps open *)
+TStamp == [k |-> "ok", n |-> ilen, listed |-> Listed(Visible, ilen), inctx |-> InCtx]
 CurTStamp == [k |-> "ok", n |-> Len(irows),
-              listed |-> Listed(irows, Len(irows))]
+              listed |-> Listed(irows, Len(irows)), inctx |-> FALSE]
+NoGhost(t) == IF t.k = "ok" THEN [k |-> "ok", n |-> t.n, listed |-> t.listed] ELSE t
 
 Init == /\ \E r \in InitRefs :
              /\ ref = r /\ vrows = Flat(r) /\ irows = IndexRows(r, 0)
@@ -87,8 +94,8 @@ Init == /\ \E r \in InitRefs :
              /\ vdescr = DOk(Len(Flat(r))) /\ idescr = DOk(Len(r))
              /\ vreadme = DOk(Len(Flat(r))) /\ ireadme = DOk(Len(r))
              /\ tdescr = TOk(Len(r), Len(Flat(r)))
-             /\ treadme = [k |-> "ok", n |-> Len(r), listed |-> Listed(IndexRows(r, 0), Len(r))]
-        /\ vtail = 0 /\ itail = 0 /\ mode \in InitModes /\ mmI = NoMap
+             /\ treadme = [k |-> "ok", n |-> Len(r), listed |-> Listed(IndexRows(r, 0), Len(r)), inctx |-> FALSE]
+        /\ vtail = 0 /\ itail = 0 /\ mode \in InitModes /\ mmI = NoMap /\ uctx = "no"
         /\ pc = Idle /\ out = "ok"
 
 Return(o) == pc' = Idle /\ out' = o
@@ -102,38 +109,38 @@ Busy == pc.op \notin {"idle", "crashed"}
 UL_Cache == /\ Busy /\ pc.at = "ul_cache"
             /\ IF pc.arr = "v" THEN vlen' = vlen + pc.inc /\ UNCHANGED ilen
                ELSE ilen' = ilen + pc.inc /\ UNCHANGED vlen
-            /\ Goto("ul_jt") /\ UNCHANGED <<disk, mode, mmI, ref, out>>
+            /\ Goto("ul_jt") /\ UNCHANGED <<disk, mode, mmI, uctx, ref, out>>
 UL_JsonTrunc == /\ Busy /\ pc.at = "ul_jt"
                 /\ IF pc.arr = "v" THEN vdescr' = DTorn /\ UNCHANGED idescr
                    ELSE idescr' = DTorn /\ UNCHANGED vdescr
                 /\ Goto("ul_jw")
-                /\ UNCHANGED <<vrows, vtail, vreadme, irows, itail, ireadme, tdisk, mode, vlen, ilen, mmI, ref, out>>
+                /\ UNCHANGED <<vrows, vtail, vreadme, irows, itail, ireadme, tdisk, mode, vlen, ilen, mmI, uctx, ref, out>>
 UL_JsonWrite == /\ Busy /\ pc.at = "ul_jw"
                 /\ IF pc.arr = "v" THEN vdescr' = DOk(vlen) /\ UNCHANGED idescr
                    ELSE idescr' = DOk(ilen) /\ UNCHANGED vdescr
                 /\ Goto("ul_rt")
-                /\ UNCHANGED <<vrows, vtail, vreadme, irows, itail, ireadme, tdisk, mode, vlen, ilen, mmI, ref, out>>
+                /\ UNCHANGED <<vrows, vtail, vreadme, irows, itail, ireadme, tdisk, mode, vlen, ilen, mmI, uctx, ref, out>>
 UL_ReadmeTrunc == /\ Busy /\ pc.at = "ul_rt"
                   /\ IF pc.arr = "v" THEN vreadme' = DTorn /\ UNCHANGED ireadme
                      ELSE ireadme' = DTorn /\ UNCHANGED vreadme
                   /\ Goto("ul_rw")
-                  /\ UNCHANGED <<vrows, vtail, vdescr, irows, itail, idescr, tdisk, mode, vlen, ilen, mmI, ref, out>>
+                  /\ UNCHANGED <<vrows, vtail, vdescr, irows, itail, idescr, tdisk, mode, vlen, ilen, mmI, uctx, ref, out>>
 UL_ReadmeWrite == /\ Busy /\ pc.at = "ul_rw"
                   /\ IF pc.arr = "v" THEN vreadme' = DOk(vdescr.len) /\ UNCHANGED ireadme
                      ELSE ireadme' = DOk(idescr.len) /\ UNCHANGED vreadme
                   /\ Goto(pc.ret)
-                  /\ UNCHANGED <<vrows, vtail, vdescr, irows, itail, idescr, tdisk, mode, vlen, ilen, mmI, ref, out>>
+                  /\ UNCHANGED <<vrows, vtail, vdescr, irows, itail, idescr, tdisk, mode, vlen, ilen, mmI, uctx, ref, out>>
 EnterUL(a, inc, retat) == pc' = [pc EXCEPT !.at = "ul_cache", !.arr = a, !.inc = inc, !.ret = retat]
 
 (* top-level descriptor and README *)
 TD_Trunc == /\ Busy /\ pc.at = "td_t" /\ tdescr' = DTorn /\ Goto("td_w")
-            /\ UNCHANGED <<vdisk, idisk, treadme, mode, vlen, ilen, mmI, ref, out>>
+            /\ UNCHANGED <<vdisk, idisk, treadme, mode, vlen, ilen, mmI, uctx, ref, out>>
 TD_Write == /\ Busy /\ pc.at = "td_w" /\ tdescr' = TOk(ilen, vlen) /\ Goto(pc.tdret)
-            /\ UNCHANGED <<vdisk, idisk, treadme, mode, vlen, ilen, mmI, ref, out>>
+            /\ UNCHANGED <<vdisk, idisk, treadme, mode, vlen, ilen, mmI, uctx, ref, out>>
 TR_Trunc == /\ Busy /\ pc.at = "tr_t" /\ treadme' = RTorn /\ Goto("tr_w")
-            /\ UNCHANGED <<vdisk, idisk, tdescr, mode, vlen, ilen, mmI, ref, out>>
+            /\ UNCHANGED <<vdisk, idisk, tdescr, mode, vlen, ilen, mmI, uctx, ref, out>>
 TR_Write == /\ Busy /\ pc.at = "tr_w" /\ treadme' = TStamp /\ Goto(pc.trret)
-            /\ UNCHANGED <<vdisk, idisk, tdescr, mode, vlen, ilen, mmI, ref, out>>
+            /\ UNCHANGED <<vdisk, idisk, tdescr, mode, vlen, ilen, mmI, uctx, ref, out>>
 
 (***************************************************************************)
 (* append / iterappend                                                     *)
@@ -146,26 +153,28 @@ RA_Call(cs, f, via) ==
             failed |-> FALSE, arr |-> "v", inc |-> 0, ret |-> "", tdret |-> "", trret |-> "",
             prev |-> vrows, prei |-> irows,
             legit |-> {ref \o SubSeq(cs, 1, j) : j \in 0..Len(cs)}]
-  /\ UNCHANGED <<disk, mode, vlen, ilen, mmI, ref, out>>
+  /\ UNCHANGED <<disk, mode, vlen, ilen, mmI, uctx, ref, out>>
 RA_CallBadAppend(kd) ==
   /\ pc = Idle /\ "append" \in Ops /\ Faults /\ kd \in {"atom", "rank", "conv"}
   /\ pc' = [op |-> "ra", at |-> "checks", cs |-> <<>>, f |-> [kind |-> kd, at |-> 1], via |-> "append", idx |-> 1,
             vdone |-> 0, idone |-> 0, failed |-> FALSE, arr |-> "v", inc |-> 0, ret |-> "", tdret |-> "",
             trret |-> "", prev |-> vrows, prei |-> irows, legit |-> {ref}]
-  /\ UNCHANGED <<disk, mode, vlen, ilen, mmI, ref, out>>
+  /\ UNCHANGED <<disk, mode, vlen, ilen, mmI, uctx, ref, out>>
 
 (* accessmode check, then open_arrays(): both memory maps are cached *)
 RA_Checks == /\ At("ra", "checks")
              /\ IF mode # "r+" THEN Return("OSError") /\ UNCHANGED mmI
-                ELSE Goto("next") /\ mmI' = idescr.len /\ out' = out
-             /\ UNCHANGED <<disk, mode, vlen, ilen, ref>>
+                (* the user's context opened files and maps read-only: the first write is refused *)
+                ELSE IF uctx = "r" /\ (pc.cs # <<>> \/ pc.f.kind # "none") THEN Return("Raises") /\ UNCHANGED mmI
+                ELSE Goto("next") /\ mmI' = (IF InCtx THEN mmI ELSE idescr.len) /\ out' = out
+             /\ UNCHANGED <<disk, mode, vlen, ilen, uctx, ref>>
 BadItemHere == pc.f.kind \in {"raise", "atom", "rank", "conv"} /\ pc.f.at = pc.idx
 NoMore == pc.idx > Len(pc.cs)
 RA_Next == /\ At("ra", "next")
            /\ IF BadItemHere THEN pc' = [pc EXCEPT !.at = "rollback", !.failed = TRUE]
               ELSE IF NoMore THEN Goto("close")
               ELSE Goto("vwrite")
-           /\ UNCHANGED <<disk, mode, vlen, ilen, mmI, ref, out>>
+           /\ UNCHANGED <<disk, mode, vlen, ilen, mmI, uctx, ref, out>>
 (* values._append: seek end, tofile, flush *)
 RA_VWrite == /\ At("ra", "vwrite")
              /\ LET c == pc.cs[pc.idx] IN
@@ -173,7 +182,7 @@ RA_VWrite == /\ At("ra", "vwrite")
                 THEN /\ vrows' = vrows \o SubSeq(c, 1, pc.f.k) /\ vtail' = pc.f.b
                      /\ pc' = [pc EXCEPT !.at = "rollback", !.failed = TRUE]
                 ELSE /\ vrows' = vrows \o c /\ vtail' = 0 /\ Goto("iwrite")
-             /\ UNCHANGED <<vdescr, vreadme, idisk, tdisk, mode, vlen, ilen, mmI, ref, out>>
+             /\ UNCHANGED <<vdescr, vreadme, idisk, tdisk, mode, vlen, ilen, mmI, uctx, ref, out>>
 (* indices._append([[vlen, vlen + size]]) *)
 RA_IWrite == /\ At("ra", "iwrite")
              /\ LET c == pc.cs[pc.idx]
@@ -187,24 +196,24 @@ RA_IWrite == /\ At("ra", "iwrite")
                         /\ ref' = ref \o <<c>>
                         /\ pc' = [pc EXCEPT !.at = "next", !.idx = pc.idx + 1, !.vdone = pc.vdone + Len(c),
                                             !.idone = pc.idone + 1]
-             /\ UNCHANGED <<vdisk, idescr, ireadme, tdisk, mode, vlen, ilen, mmI, out>>
+             /\ UNCHANGED <<vdisk, idescr, ireadme, tdisk, mode, vlen, ilen, mmI, uctx, out>>
 (* except-branch: cut both files back to the completed subarrays *)
 RA_RollbackV == /\ At("ra", "rollback")
                 /\ vrows' = SubSeq(vrows, 1, vlen + pc.vdone) /\ vtail' = 0 /\ Goto("rollback_i")
-                /\ UNCHANGED <<vdescr, vreadme, idisk, tdisk, mode, vlen, ilen, mmI, ref, out>>
+                /\ UNCHANGED <<vdescr, vreadme, idisk, tdisk, mode, vlen, ilen, mmI, uctx, ref, out>>
 RA_RollbackI == /\ At("ra", "rollback_i")
                 /\ irows' = SubSeq(irows, 1, ilen + pc.idone) /\ itail' = 0 /\ Goto("close")
-                /\ UNCHANGED <<vdisk, idescr, ireadme, tdisk, mode, vlen, ilen, mmI, ref, out>>
+                /\ UNCHANGED <<vdisk, idescr, ireadme, tdisk, mode, vlen, ilen, mmI, uctx, ref, out>>
 (* leaving open_arrays(); then lengths, top descriptor, README *)
-RA_Close == /\ At("ra", "close") /\ mmI' = NoMap
+RA_Close == /\ At("ra", "close") /\ mmI' = (IF InCtx THEN mmI ELSE NoMap)     \* the user's context keeps the maps
             /\ pc' = [pc EXCEPT !.at = "ul_cache", !.arr = "v", !.inc = pc.vdone, !.ret = "ulen_i"]
-            /\ UNCHANGED <<disk, mode, vlen, ilen, ref, out>>
+            /\ UNCHANGED <<disk, mode, vlen, ilen, uctx, ref, out>>
 RA_ULenI == /\ At("ra", "ulen_i")
             /\ pc' = [pc EXCEPT !.at = "ul_cache", !.arr = "i", !.inc = pc.idone, !.ret = "td_t", !.tdret = "tr_t",
                                 !.trret = "done"]
-            /\ UNCHANGED <<disk, mode, vlen, ilen, mmI, ref, out>>
+            /\ UNCHANGED <<disk, mode, vlen, ilen, mmI, uctx, ref, out>>
 RA_Done == /\ At("ra", "done") /\ Return(IF pc.failed THEN "AppendDataError" ELSE "ok")
-           /\ UNCHANGED <<disk, mode, vlen, ilen, mmI, ref>>
+           /\ UNCHANGED <<disk, mode, vlen, ilen, mmI, uctx, ref>>
 
 RA_WriteCrash(k, b) ==
   /\ Crashes /\ pc.op = "ra" /\ pc.at = "vwrite" /\ ~NoMore
@@ -212,11 +221,11 @@ RA_WriteCrash(k, b) ==
        /\ 2 * k + b < 2 * Len(c)
        /\ vrows' = vrows \o SubSeq(c, 1, k) /\ vtail' = b
   /\ pc' = [op |-> "crashed", legit |-> pc.legit]
-  /\ UNCHANGED <<vdescr, vreadme, idisk, tdisk, mode, vlen, ilen, mmI, ref, out>>
+  /\ UNCHANGED <<vdescr, vreadme, idisk, tdisk, mode, vlen, ilen, mmI, uctx, ref, out>>
 RA_IWriteCrash ==
   /\ Crashes /\ pc.op = "ra" /\ pc.at = "iwrite" /\ itail' = 1
   /\ pc' = [op |-> "crashed", legit |-> pc.legit]
-  /\ UNCHANGED <<vdisk, irows, idescr, ireadme, tdisk, mode, vlen, ilen, mmI, ref, out>>
+  /\ UNCHANGED <<vdisk, irows, idescr, ireadme, tdisk, mode, vlen, ilen, mmI, uctx, ref, out>>
 
 (***************************************************************************)
 (* truncate_raggedarray(ra, index)                                         *)
@@ -224,11 +233,12 @@ RA_IWriteCrash ==
 NonInt == 777777
 RT_Call(i) ==
   /\ pc = Idle /\ "truncate" \in Ops /\ i \in TruncArgs \cup {NonInt}
+  /\ ~InCtx        \* cutting files under open maps is not modelled
   /\ LET nl == IF i = NonInt THEN -1 ELSE TruncLen(i, Len(ref)) IN
      pc' = [op |-> "rt", at |-> "checks", i |-> i, arr |-> "i", inc |-> 0, ret |-> "", tdret |-> "", trret |-> "",
             nl |-> nl,
             legit |-> {ref} \cup (IF 0 <= nl /\ nl < Len(ref) THEN {SubSeq(ref, 1, nl)} ELSE {})]
-  /\ UNCHANGED <<disk, mode, vlen, ilen, mmI, ref, out>>
+  /\ UNCHANGED <<disk, mode, vlen, ilen, mmI, uctx, ref, out>>
 RT_Checks ==
   /\ At("rt", "checks")
   /\ IF pc.i = NonInt THEN Return("TypeError")
@@ -236,29 +246,29 @@ RT_Checks ==
      ELSE LET nl == TruncLen(pc.i, idescr.len) IN
           IF 0 <= nl /\ nl < ilen THEN pc' = [pc EXCEPT !.at = "i_os", !.nl = nl] /\ out' = out
           ELSE Return("IndexError")
-  /\ UNCHANGED <<disk, mode, vlen, ilen, mmI, ref>>
+  /\ UNCHANGED <<disk, mode, vlen, ilen, mmI, uctx, ref>>
 (* truncate_array(indices, newlen): os.truncate, _update_len *)
 RT_IOsTruncate ==
   /\ At("rt", "i_os")
   /\ irows' = SubSeq(irows, 1, pc.nl) /\ itail' = 0
   /\ ref' = SubSeq(ref, 1, pc.nl)
   /\ pc' = [pc EXCEPT !.at = "ul_cache", !.arr = "i", !.inc = pc.nl - ilen, !.ret = "v_pick"]
-  /\ UNCHANGED <<vdisk, idescr, ireadme, tdisk, mode, vlen, ilen, mmI, out>>
+  /\ UNCHANGED <<vdisk, idescr, ireadme, tdisk, mode, vlen, ilen, mmI, uctx, out>>
 (* vi = indices[-1][-1] (0 when empty); values are cut only if that shortens them *)
 RT_VPick ==
   /\ At("rt", "v_pick")
   /\ LET vi == IF ilen = 0 THEN 0 ELSE irows[ilen][2] IN
      IF vi < vlen THEN pc' = [pc EXCEPT !.at = "v_os", !.nl = vi]
      ELSE pc' = [pc EXCEPT !.at = "tr_t", !.trret = "td_t", !.tdret = "done"]
-  /\ UNCHANGED <<disk, mode, vlen, ilen, mmI, ref, out>>
+  /\ UNCHANGED <<disk, mode, vlen, ilen, mmI, uctx, ref, out>>
 RT_VOsTruncate ==
   /\ At("rt", "v_os")
   /\ vrows' = SubSeq(vrows, 1, pc.nl) /\ vtail' = 0
   /\ pc' = [pc EXCEPT !.at = "ul_cache", !.arr = "v", !.inc = pc.nl - vlen, !.ret = "tr_t", !.trret = "td_t",
                       !.tdret = "done"]
-  /\ UNCHANGED <<vdescr, vreadme, idisk, tdisk, mode, vlen, ilen, mmI, ref, out>>
+  /\ UNCHANGED <<vdescr, vreadme, idisk, tdisk, mode, vlen, ilen, mmI, uctx, ref, out>>
 RT_Done == /\ At("rt", "done") /\ Return("ok")
-           /\ UNCHANGED <<disk, mode, vlen, ilen, mmI, ref>>
+           /\ UNCHANGED <<disk, mode, vlen, ilen, mmI, uctx, ref>>
 
 (***************************************************************************)
 (* access mode, reopening                                                  *)
@@ -266,14 +276,22 @@ RT_Done == /\ At("rt", "done") /\ Return("ok")
 SetMode(m) == /\ pc = Idle /\ "mode" \in Ops /\ m \in {"r", "r+", "w"}
               /\ IF m = "w" THEN out' = "ValueError" /\ UNCHANGED mode
                  ELSE mode' = m /\ out' = "ok"
-              /\ UNCHANGED <<disk, vlen, ilen, mmI, pc, ref>>
-Reopen(m) == /\ pc = Idle /\ "reopen" \in Ops /\ m \in {"r", "r+"}
+              /\ UNCHANGED <<disk, vlen, ilen, mmI, uctx, pc, ref>>
+Reopen(m) == /\ pc = Idle /\ "reopen" \in Ops /\ m \in {"r", "r+"} /\ ~InCtx
              /\ mode' = m /\ vlen' = vdescr.len /\ ilen' = idescr.len /\ out' = "ok"
-             /\ UNCHANGED <<disk, mmI, pc, ref>>
+             /\ UNCHANGED <<disk, mmI, uctx, pc, ref>>
+
+(* with ra.open_arrays(): ... / a suspended ra.iter_arrays() generator *)
+EnterCtx == /\ pc = Idle /\ "ctx" \in Ops /\ ~InCtx
+            /\ uctx' = mode /\ mmI' = ilen /\ out' = "ok"
+            /\ UNCHANGED <<disk, mode, vlen, ilen, pc, ref>>
+ExitCtx == /\ pc = Idle /\ "ctx" \in Ops /\ InCtx
+           /\ uctx' = "no" /\ mmI' = NoMap /\ out' = "ok"
+           /\ UNCHANGED <<disk, mode, vlen, ilen, pc, ref>>
 
 Crash == /\ Crashes /\ Busy
          /\ pc' = [op |-> "crashed", legit |-> pc.legit]
-         /\ UNCHANGED <<disk, mode, vlen, ilen, mmI, ref, out>>
+         /\ UNCHANGED <<disk, mode, vlen, ilen, mmI, uctx, ref, out>>
 
 Next == \/ \E cs \in ItemLists : \E f \in FaultPlans(cs) : \E via \in {"append", "iterappend"} : RA_Call(cs, f, via)
         \/ \E kd \in {"atom", "rank", "conv"} : RA_CallBadAppend(kd)
@@ -287,6 +305,7 @@ Next == \/ \E cs \in ItemLists : \E f \in FaultPlans(cs) : \E via \in {"append",
         \/ RT_Checks \/ RT_IOsTruncate \/ RT_VPick \/ RT_VOsTruncate \/ RT_Done
         \/ \E m \in {"r", "r+", "w"} : SetMode(m)
         \/ \E m \in {"r", "r+"} : Reopen(m)
+        \/ EnterCtx \/ ExitCtx
         \/ Crash
 Spec == Init /\ [][Next]_vars
 
@@ -305,10 +324,15 @@ WellFormedRagged == Quiescent =>
    /\ vreadme.k = "ok" /\ ireadme.k = "ok"
 (* C04 *)
 Model_Ragged == Quiescent => /\ OpenOutcome = ref /\ ilen = Len(ref) /\ vlen = Len(Flat(ref))
-                             /\ mmI = NoMap
+                             /\ (mmI = NoMap) = ~InCtx
 (* C08 *)
-Readme_Current == Quiescent => /\ treadme = CurTStamp
+(* the ragged README is written through the maps that are open: inside a user context it lists *)
+(* what the stale index map shows (StaleReadmeInCtx, outside C08's histories); TLC must find    *)
+(* Readme_CurrentAlways violated when "ctx" \in Ops                                             *)
+Readme_Current == Quiescent => /\ (treadme.k = "ok" /\ ~treadme.inctx => treadme = CurTStamp)
+                               /\ treadme.k = "ok"
                                /\ vreadme = DOk(Len(vrows)) /\ ireadme = DOk(Len(irows))
+Readme_CurrentAlways == Quiescent => NoGhost(treadme) = NoGhost(CurTStamp)
 (* C10: ref is extended only by completely appended subarrays *)
 FailedAppendExact == (Quiescent /\ out = "AppendDataError") => OpenOutcome = ref
 ReadOnly == [][(mode = "r" /\ mode' = "r") => UNCHANGED disk]_vars
